@@ -308,7 +308,8 @@ def impl_seq(case, schema):
                                           "x" if ch.get(xsi_type) == "dcterms:W3CDTF" else "-", show(ch.text or "")))
             valid = bool(schema.validate(cp._element)) if schema is not None else None
             trace.append({"res": res, "vals": vals, "valid": valid, "saved_valid": saved_valid,
-                          "kids": [k_.split(" ")[0] for k_ in kids]})
+                          "kids": [k_.split(" ")[0] for k_ in kids],
+                          "xsi": {k_.split(" ")[0]: k_.split(" ")[1][0] == "x" for k_ in kids}})
             outs.append("|".join([res] + [fmt_reading(v) for v in vals] + [",".join(kids), str(valid)]))
         return ";".join(outs), trace
     finally:
@@ -501,6 +502,9 @@ def oracle(ck, case, trace):
         ks = tr["kids"]
         if api_only and (len(set(ks)) != len(ks) or "o0" in ks):
             viol("part-structure", "duplicate or undeclared child under cp:coreProperties: %r" % ks, i)
+        # OPC requires xsi:type="dcterms:W3CDTF" on dcterms:created / dcterms:modified
+        if api_only and any(tr["xsi"].get(str(q)) is False for q in XSI_P):
+            viol("xsi-type-missing", "dcterms:created/modified written without xsi:type=dcterms:W3CDTF", i)
 
 
 def short(v):
@@ -692,6 +696,15 @@ def rand_value_for(rng, p, good=0.8):
 def gen_cases(tier, rng):
     quick = tier == "quick"
     cases = []
+    # the witnesses carried by the C18_*_refuted theorems, replayed on the implementation first
+    cases.append(mk([("set", 4, ("dt", 999, 1, 2, 3, 4, 5, 0, None))], "witness"))
+    cases.append(mk([("set", 4, ("dt", 2020, 2, 29, 23, 59, 59, 0, 18000))], "witness"))
+    cases.append(mk([("set", REV_P, ("bool", 1))], "witness"))
+    cases.append(mk([("raw", 4, 1, "2003-12-31T10:14+01:00")], "witness"))
+    cases.append(mk([("raw", 4, 1, "2003-12-31T10:14:55.5+01:00")], "witness"))
+    cases.append(mk([("raw", 4, 1, "2003-12-31T10:14:55.1234Z")], "witness"))
+    cases.append(mk([("raw", 4, 1, "0001-01-01T00:00:00+00:01")], "witness"))
+    cases.append(mk([("set", 13, ("str", "a")), ("set", 13, ("str", "\uffff"))], "witness"))
     # A. strings: every text property x boundary lengths x alphabets; then every length 0..256
     for p in TEXT_P:
         for n in (0, 1, 2, 254, 255, 256):
